@@ -1,7 +1,7 @@
 (* C09 - lemmas about the generated tool code (gen/CmdLine.v) and the entry
    points around it (C09/Tools.v). *)
 From Coq Require Import ZArith QArith List Bool String Ascii Lia.
-From Verif Require Import C09.Model gen.CmdLine C09.Tools.
+From Verif Require Import C09.Model gen.CmdLine C09.Tools C09.Sym.
 Import ListNotations.
 Open Scope Z_scope.
 
@@ -526,20 +526,20 @@ Proof.
   rewrite E, Nat2Z.id. exact H.
 Qed.
 
-Lemma assoc_pop_in k m kv : In kv (assoc_pop k m) <-> In kv m /\ fst kv <> k.
+Lemma dict_pop_in k m kv : In kv (dict_pop m k) <-> In kv m /\ fst kv <> k.
 Proof.
-  unfold assoc_pop. rewrite filter_In. split; intros [H1 H2]; split; auto.
+  unfold dict_pop. rewrite filter_In. split; intros [H1 H2]; split; auto.
   - intros E. rewrite E, String.eqb_refl in H2. discriminate.
   - apply negb_true_iff. apply String.eqb_neq. exact H2.
 Qed.
 
 (* an utterance stays exactly when the manifest does not list it *)
 Lemma manifest_filter_in : forall manifest m kv,
-    In kv (manifest_filter manifest m) <-> In kv m /\ ~ In (fst kv) (map strip manifest).
+    In kv (manifest_filter manifest m) <-> In kv m /\ ~ In (fst kv) (map torch_manifest_key manifest).
 Proof.
   induction manifest as [|line manifest IH]; intros m kv; cbn [manifest_filter fold_left map].
   - cbn. tauto.
-  - fold (manifest_filter manifest (assoc_pop (strip line) m)). rewrite IH, assoc_pop_in. cbn [In].
+  - fold (manifest_filter manifest (dict_pop m (torch_manifest_key line))). rewrite IH, dict_pop_in. cbn [In].
     split.
     + intros [[H1 H2] H3]. split; [exact H1|]. intros [E|E]; [apply H2; symmetry; exact E | exact (H3 E)].
     + intros [H1 H2]. split; [split; [exact H1 | intros E; apply H2; left; symmetry; exact E] | intros E; apply H2; right; exact E].
@@ -547,13 +547,13 @@ Qed.
 
 (* ... and the survivors keep their order *)
 Lemma manifest_filter_filter : forall manifest m,
-    manifest_filter manifest m = filter (fun kv => negb (mem_str (fst kv) (map strip manifest))) m.
+    manifest_filter manifest m = filter (fun kv => negb (mem_str (fst kv) (map torch_manifest_key manifest))) m.
 Proof.
   induction manifest as [|line manifest IH]; intros m; cbn [manifest_filter fold_left map mem_str].
   - induction m as [|x m IHm]; cbn; [reflexivity | f_equal; exact IHm].
-  - fold (manifest_filter manifest (assoc_pop (strip line) m)). rewrite IH. unfold assoc_pop.
+  - fold (manifest_filter manifest (dict_pop m (torch_manifest_key line))). rewrite IH. unfold dict_pop.
     induction m as [|x m IHm]; cbn [filter]; [reflexivity|].
-    destruct (String.eqb (fst x) (strip line)) eqn:E; cbn [negb orb].
+    destruct (String.eqb (fst x) (torch_manifest_key line)) eqn:E; cbn [negb orb].
     + exact IHm.
     + cbn [filter]. rewrite IHm. reflexivity.
 Qed.
@@ -600,7 +600,7 @@ Section TorchDataset.
 
   Lemma torch_dataset_utts_l :
     td_utt_path ds = match ta_manifest a with
-                     | Some lines => filter (fun kv => negb (mem_str (fst kv) (map strip lines))) m
+                     | Some lines => filter (fun kv => negb (mem_str (fst kv) (map torch_manifest_key lines))) m
                      | None => m
                      end.
   Proof.
@@ -654,6 +654,254 @@ Section TorchTool.
     rewrite Hs, Hp, Hfst. reflexivity.
   Qed.
 End TorchTool.
+
+(** * the map file and the manifest, as text *)
+Section Text.
+Open Scope string_scope.
+Open Scope Z_scope.
+
+Lemma app_assoc_s (a b c : string) : (a ++ b) ++ c = a ++ (b ++ c).
+Proof. induction a; cbn; congruence. Qed.
+Lemma app_nil_r_s (a : string) : a ++ "" = a.
+Proof. induction a; cbn; congruence. Qed.
+
+Lemma rev_string_app s t acc : rev_string (s ++ t) acc = rev_string t (rev_string s acc).
+Proof. revert acc; induction s; intros acc; cbn; [reflexivity | apply IHs]. Qed.
+
+Lemma rev_string_rev s : forall a b, rev_string (rev_string s a) b = rev_string a (s ++ b).
+Proof. induction s as [|c s IH]; intros a b; cbn; [reflexivity | rewrite IH; reflexivity]. Qed.
+
+Lemma lstrip_spaces ws x : all_space ws = true -> lstrip (ws ++ x) = lstrip x.
+Proof.
+  induction ws as [|c ws IH]; cbn; [reflexivity|]. intros H. apply andb_true_iff in H as [Hc Hw].
+  rewrite Hc. apply IH, Hw.
+Qed.
+
+Lemma lstrip_head c x : is_space c = false -> lstrip (String c x) = String c x.
+Proof. intros H; cbn; rewrite H; reflexivity. Qed.
+
+Lemma lstrip_rev_spaces ws : forall t, all_space ws = true -> lstrip (rev_string ws t) = lstrip t.
+Proof.
+  induction ws as [|c ws IH]; intros t H; cbn; [reflexivity|].
+  cbn in H. apply andb_true_iff in H as [Hc Hw]. rewrite IH by exact Hw. cbn. rewrite Hc. reflexivity.
+Qed.
+
+Lemma rstrip_spaces s ws : all_space ws = true -> rstrip (s ++ ws) = rstrip s.
+Proof. intros H. unfold rstrip. rewrite rev_string_app, lstrip_rev_spaces by exact H. reflexivity. Qed.
+
+Lemma rstrip_last s c : is_space c = false -> rstrip (s ++ String c "") = s ++ String c "".
+Proof.
+  intros H. unfold rstrip. rewrite rev_string_app. cbn [rev_string]. rewrite lstrip_head by exact H.
+  cbn [rev_string]. rewrite rev_string_rev. reflexivity.
+Qed.
+
+Lemma all_space_strip ws : all_space ws = true -> strip ws = "".
+Proof.
+  intros H. unfold strip. replace ws with (ws ++ "") by apply app_nil_r_s.
+  rewrite lstrip_spaces by exact H. reflexivity.
+Qed.
+
+(* a line "  core  " strips to its core when the core starts and ends with non-blanks *)
+Lemma strip_core ws1 ws2 c0 mid c1 :
+  all_space ws1 = true -> all_space ws2 = true -> is_space c0 = false -> is_space c1 = false ->
+  strip (ws1 ++ (String c0 mid ++ String c1 "") ++ ws2) = String c0 mid ++ String c1 "".
+Proof.
+  intros H1 H2 H0 H3. unfold strip. rewrite lstrip_spaces by exact H1.
+  cbn [append]. rewrite lstrip_head by exact H0.
+  change (String c0 ((mid ++ String c1 "") ++ ws2)) with ((String c0 mid ++ String c1 "") ++ ws2).
+  rewrite rstrip_spaces by exact H2. change (String c0 mid ++ String c1 "") with (String c0 mid ++ String c1 "").
+  apply rstrip_last. exact H3.
+Qed.
+
+(* one-character core *)
+Lemma strip_core1 ws1 ws2 c0 :
+  all_space ws1 = true -> all_space ws2 = true -> is_space c0 = false ->
+  strip (ws1 ++ String c0 "" ++ ws2) = String c0 "".
+Proof.
+  intros H1 H2 H0. unfold strip. rewrite lstrip_spaces by exact H1. cbn [append].
+  rewrite lstrip_head by exact H0.
+  change (String c0 ws2) with (("" ++ String c0 "") ++ ws2).
+  rewrite rstrip_spaces by exact H2. apply rstrip_last. exact H0.
+Qed.
+
+Lemma split_nonempty s : split_sp s <> [].
+Proof.
+  destruct s as [|c s]; cbn; [discriminate|]. destruct (Ascii.eqb c sp); [discriminate|].
+  destruct (split_sp s); discriminate.
+Qed.
+
+Lemma join_split s : join_sp (split_sp s) = s.
+Proof.
+  induction s as [|c s IH]; cbn [split_sp]; [reflexivity|].
+  pose proof (split_nonempty s) as Hne.
+  destruct (split_sp s) as [|f fs] eqn:Es; [contradiction|].
+  destruct (Ascii.eqb c sp) eqn:E.
+  - apply Ascii.eqb_eq in E. rewrite E.
+    change (join_sp ("" :: f :: fs)) with ("" ++ String sp (join_sp (f :: fs))).
+    rewrite IH. reflexivity.
+  - destruct fs as [|g gs].
+    + cbn in IH. cbn. rewrite IH. reflexivity.
+    + change (join_sp (String c f :: g :: gs)) with (String c f ++ String sp (join_sp (g :: gs))).
+      change (join_sp (f :: g :: gs)) with (f ++ String sp (join_sp (g :: gs))) in IH.
+      cbn [append]. rewrite IH. reflexivity.
+Qed.
+
+Lemma space_is_space : is_space sp = true.
+Proof. reflexivity. Qed.
+
+Lemma split_head u p : no_space u = true -> split_sp (u ++ String sp p) = u :: split_sp p.
+Proof.
+  induction u as [|c u IH]; intros H.
+  - cbn. reflexivity.
+  - cbn in H. apply andb_true_iff in H as [Hc Hu]. cbn [append split_sp].
+    assert (E : Ascii.eqb c sp = false).
+    { apply Ascii.eqb_neq. intros ->. rewrite space_is_space in Hc. discriminate. }
+    rewrite E, IH by exact Hu. reflexivity.
+Qed.
+
+Lemma py_getitem_0 {A} (x : A) l : py_getitem (x :: l) 0 = Some x.
+Proof.
+  unfold py_getitem. rewrite Zlength_cons.
+  assert (E : ((0 <=? 0) && (0 <? Z.succ (Zlength l))) = true).
+  { apply andb_true_iff; split; [reflexivity|]. apply Z.ltb_lt. rewrite Zlength_correct. lia. }
+  rewrite E. reflexivity.
+Qed.
+
+Lemma dict_set_new d k v : dict_mem k d = false -> dict_set d k v = (d ++ [(k, v)])%list.
+Proof.
+  unfold dict_mem. induction d as [|[k' v'] d IH]; cbn; [reflexivity|].
+  intros H. apply orb_false_iff in H as [H1 H2]. rewrite H1, (IH H2). reflexivity.
+Qed.
+
+Lemma mem_str_in k l : mem_str k l = true <-> In k l.
+Proof.
+  induction l as [|x l IH]; cbn; [split; [discriminate | tauto]|].
+  rewrite orb_true_iff, IH, String.eqb_eq. split; intros [H|H]; auto.
+Qed.
+
+Lemma strip_entry ws1 ws2 u p :
+  all_space ws1 = true -> all_space ws2 = true -> wf_id u -> wf_path p ->
+  strip (ws1 ++ (u ++ String sp p) ++ ws2) = u ++ String sp p.
+Proof.
+  intros H1 H2 [Hne Hu] Hp.
+  destruct u as [|c0 u']; [contradiction|]. cbn in Hu. apply andb_true_iff in Hu as [Hc0 Hu'].
+  apply negb_true_iff in Hc0.
+  destruct Hp as [(c & -> & Hc)|(d0 & mid & c1 & -> & Hd0 & Hc1)].
+  - replace (String c0 u' ++ String sp (String c "")) with (String c0 (u' ++ String sp "") ++ String c "")
+      by (cbn; rewrite app_assoc_s; reflexivity).
+    apply strip_core; assumption.
+  - replace (String c0 u' ++ String sp (String d0 mid ++ String c1 ""))
+      with (String c0 (u' ++ String sp (String d0 mid)) ++ String c1 "")
+      by (cbn; rewrite app_assoc_s; reflexivity).
+    apply strip_core; assumption.
+Qed.
+
+Lemma entry_nonempty u p : wf_id u -> String.eqb (u ++ String sp p) "" = false.
+Proof. intros [Hne _]. destruct u; [contradiction | reflexivity]. Qed.
+
+Lemma parse_map_wellformed : forall lines es,
+    renders lines es ->
+    forall n acc, NoDup (map fst acc ++ map fst es) ->
+                  torch_map_loop lines n acc = MapOk (acc ++ es)%list.
+Proof.
+  induction 1 as [|l ls es Hl Hr IH|ws1 ws2 u p ls es H1 H2 Hu Hp Hr IH]; intros n acc ND.
+  - cbn. rewrite app_nil_r. reflexivity.
+  - cbn [torch_map_loop]. rewrite (all_space_strip l Hl). cbn. apply IH, ND.
+  - cbn [torch_map_loop]. rewrite strip_entry by assumption. unfold truthy_str.
+    rewrite entry_nonempty by assumption. cbn [negb].
+    rewrite split_head by apply Hu.
+    pose proof (split_nonempty p) as Hne. destruct (split_sp p) as [|f fs] eqn:Es; [contradiction|].
+    assert (E2 : (Zlength (u :: f :: fs) <? 2) = false).
+    { rewrite !Zlength_cons. apply Z.ltb_ge. pose proof (Zlength_correct fs). lia. }
+    rewrite E2. rewrite py_getitem_0. unfold py_slice_from. change (Z.to_nat 1) with 1%nat. cbn [skipn].
+    rewrite <- Es, join_split.
+    assert (E3 : dict_mem u acc = false).
+    { unfold dict_mem. destruct (mem_str u (map fst acc)) eqn:E; [|reflexivity]. apply mem_str_in in E.
+      exfalso. cbn [map fst] in ND. apply NoDup_remove_2 in ND. apply ND. apply in_or_app. left; exact E. }
+    rewrite E3, (dict_set_new _ _ _ E3). rewrite IH.
+    + rewrite <- app_assoc. reflexivity.
+    + rewrite map_app. cbn [map fst]. rewrite <- app_assoc. cbn [app]. exact ND.
+Qed.
+
+(* a line with a single field is rejected with its line number; a repeated id too *)
+Lemma parse_map_one_field ws1 ws2 u rest n acc :
+  all_space ws1 = true -> all_space ws2 = true -> wf_id u ->
+  torch_map_loop ((ws1 ++ u ++ ws2) :: rest) n acc = MapExit 1.
+Proof.
+  intros H1 H2 [Hne Hu]. cbn [torch_map_loop].
+  assert (Hs : strip (ws1 ++ u ++ ws2) = u).
+  { destruct u as [|c0 u']; [contradiction|]. cbn in Hu. apply andb_true_iff in Hu as [Hc0 Hu'].
+    apply negb_true_iff in Hc0.
+    (* split u into its last character *)
+    assert (Hlast : (u' = "" ) \/ exists mid c1, u' = mid ++ String c1 "" /\ is_space c1 = false).
+    { clear -Hu'. induction u' as [|c u IH]; [left; reflexivity|]. right.
+      cbn in Hu'. apply andb_true_iff in Hu' as [Hc Hu]. apply negb_true_iff in Hc.
+      destruct (IH Hu) as [->|(mid & c1 & -> & H1)].
+      - exists "", c. split; [reflexivity | exact Hc].
+      - exists (String c mid), c1. split; [reflexivity | exact H1]. }
+    destruct Hlast as [->|(mid & c1 & -> & Hc1)].
+    - apply strip_core1; assumption.
+    - change (String c0 (mid ++ String c1 "")) with (String c0 mid ++ String c1 "").
+      apply strip_core; assumption. }
+  rewrite Hs. destruct u as [|c0 u']; [contradiction|]. unfold truthy_str.
+  replace (String.eqb (String c0 u') "") with false by reflexivity. cbn [negb].
+  assert (Hsp : split_sp (String c0 u') = [String c0 u']).
+  { clear -Hu. revert Hu. generalize (String c0 u') as s. induction s as [|c s IH]; intros H; [reflexivity|].
+    cbn in H. apply andb_true_iff in H as [Hc Hs]. cbn [split_sp].
+    assert (E : Ascii.eqb c sp = false).
+    { apply Ascii.eqb_neq. intros ->. rewrite space_is_space in Hc. discriminate. }
+    rewrite E. destruct s as [|c' s'].
+    - reflexivity.
+    - rewrite (IH Hs). reflexivity. }
+  rewrite Hsp. reflexivity.
+Qed.
+
+Lemma torch_map_duplicate_l ws1 ws2 u p rest n acc :
+  all_space ws1 = true -> all_space ws2 = true -> wf_id u -> wf_path p -> dict_mem u acc = true ->
+  torch_map_loop ((ws1 ++ (u ++ String sp p) ++ ws2) :: rest) n acc = MapExit 1.
+Proof.
+  intros H1 H2 Hu Hp Hm. cbn [torch_map_loop]. rewrite strip_entry by assumption. unfold truthy_str.
+  rewrite entry_nonempty by assumption. cbn [negb].
+  rewrite split_head by apply Hu.
+  pose proof (split_nonempty p) as Hne. destruct (split_sp p) as [|f fs] eqn:Es; [contradiction|].
+  assert (E2 : (Zlength (u :: f :: fs) <? 2) = false).
+  { rewrite !Zlength_cons. apply Z.ltb_ge. pose proof (Zlength_correct fs). lia. }
+  rewrite E2, py_getitem_0, Hm. reflexivity.
+Qed.
+
+(* the id a manifest line stands for: the line without its terminator *)
+Lemma lstrip_nl_head c x : Ascii.eqb c nl = false -> lstrip_nl (String c x) = String c x.
+Proof.
+  intros H. change (lstrip_nl (String c x)) with (if Ascii.eqb c nl then lstrip_nl x else String c x).
+  rewrite H. reflexivity.
+Qed.
+
+Lemma lstrip_nl_nl x : lstrip_nl (String nl x) = lstrip_nl x.
+Proof. reflexivity. Qed.
+
+Lemma manifest_line_roundtrip_l u : wf_id u -> torch_manifest_key (u ++ String nl "") = u.
+Proof.
+  intros [Hne Hu]. unfold torch_manifest_key, rstrip_nl.
+  rewrite rev_string_app. change (rev_string (String nl "") (rev_string u "")) with (String nl (rev_string u "")).
+  rewrite lstrip_nl_nl.
+  (* the last character of u is not a line feed *)
+  assert (Hlast : exists mid c1, u = mid ++ String c1 "" /\ is_space c1 = false).
+  { destruct u as [|c0 u']; [contradiction|]. clear Hne. revert c0 Hu.
+    induction u' as [|c u IH]; intros c0 Hu.
+    - exists "", c0. cbn in Hu. rewrite andb_true_r in Hu. apply negb_true_iff in Hu. split; [reflexivity | exact Hu].
+    - cbn in Hu. apply andb_true_iff in Hu as [H0 Hu]. destruct (IH c Hu) as (mid & c1 & E & H1).
+      exists (String c0 mid), c1. split; [cbn; rewrite <- E; reflexivity | exact H1]. }
+  destruct Hlast as (mid & c1 & -> & Hc1).
+  rewrite rev_string_app. change (rev_string (String c1 "") (rev_string mid "")) with (String c1 (rev_string mid "")).
+  assert (E : Ascii.eqb c1 nl = false).
+  { apply Ascii.eqb_neq. intros ->. vm_compute in Hc1. discriminate. }
+  rewrite lstrip_nl_head by exact E. cbn [rev_string]. rewrite rev_string_rev. reflexivity.
+Qed.
+End Text.
+
+Lemma torch_seed_choice_l (fresh z : Z) :
+  torch_seed_choice (Some z) fresh = z /\ torch_seed_choice None fresh = fresh.
+Proof. split; reflexivity. Qed.
 
 (** * STFT framing arithmetic shared by compute.py and torch.py *)
 Lemma stft_plan_np_eq_pt_l Lf S centered k N :
@@ -725,3 +973,75 @@ Proof.
   unfold np_stft_plan. destruct (N <? Lf / 2 + 1); [discriminate|].
   intros H. inversion H; subst; clear H. lia.
 Qed.
+
+(** * The hypotheses of the theorems are satisfiable: concrete, non-trivial instances
+      on the symbolic library (C09/Sym.v) *)
+Section Examples.
+  Open Scope string_scope.
+  Open Scope Z_scope.
+
+  (* three utterances, --channel 1, --seed 0, --min-duration 0.1, one pre- and one post-processor:
+     "a" is stored with post-processing, "b" (no frame) without, "c" (one channel) is skipped *)
+  Let o := mkKO (1 # 10) 1 (Some 0).
+  Let c := mkSC 0 (16000 # 1) [(0, 1, 3); (1, 1, 0); (2, 0, 5)] true.
+  Let ps := [mkSP 0 true].
+  Let qs := [mkSQ 0 [(3, Some 3)]].
+  Let items : list (KItem SymLib) :=
+    map kitem_of [(0, "a", [100; 100], 16000 # 1, 2 # 10); (1, "b", [10; 10], 16000 # 1, 3 # 10);
+                  (2, "c", [500], 16000 # 1, 5 # 10)].
+
+  Example kaldi_spec_example :
+    exists out r', kaldi_spec (L := SymLib) o ps c qs items RInit = (out, r', None) /\
+                   map fst out = ["a"; "b"] /\ NoDup (map fst items).
+  Proof.
+    eexists; eexists; split; [vm_compute; reflexivity|]. split; [reflexivity|].
+    repeat constructor; cbn; intuition discriminate.
+  Qed.
+
+  Example kaldi_select_example :
+    kaldi_select (L := SymLib) o (c_rate c) (hd ("", ([], 0 # 1, 0 # 1)%Q) items) = @KTake SymLib (mkSS (SChan 0 1) 100) /\
+    kaldi_select (L := SymLib) o (c_rate c) (nth 2 items ("", ([], 0 # 1, 0 # 1)%Q)) = KSkip.
+  Proof. split; reflexivity. Qed.
+
+  Example lib_features_example :
+    0 < nframes (l := SymLib) (compute_full (l := SymLib) c (fst (fold_pre (pre_apply (l := SymLib)) ps (mkSS (SChan 0 1) 100 : Sig SymLib) (RInit : Rng SymLib)))).
+  Proof. vm_compute. reflexivity. Qed.
+
+  (* a data set of two utterances, the first listed in the manifest *)
+  Let a := mkTA ["u1 /x/a.npy" ++ String nl ""; " " ++ String nl ""; "  u2 /x/b c.npy  " ++ String nl ""]
+                None None None 0 (Some 3) "p_" ".pt" (Some ["u1" ++ String nl ""]).
+  Let files := [("/x/a.npy", (0, Some (inl 100))); ("/x/b c.npy", (1, Some (inr (2, 50))))].
+
+  Example map_file_example : renders (ta_map a) [("u1", "/x/a.npy"); ("u2", "/x/b c.npy")].
+  Proof.
+    cbn [ta_map a].
+    apply (r_entry "" (String nl "") "u1" "/x/a.npy"); try reflexivity.
+    - split; [discriminate | reflexivity].
+    - right. exists "/"%char, "x/a.np", "y"%char. repeat split.
+    - apply r_blank; [reflexivity|].
+      apply (r_entry "  " ("  " ++ String nl "") "u2" "/x/b c.npy"); try reflexivity.
+      + split; [discriminate | reflexivity].
+      + right. exists "/"%char, "x/b c.np", "y"%char. repeat split.
+      + constructor.
+  Qed.
+
+  Example torch_tool_example :
+    let m := [("u1", "/x/a.npy"); ("u2", "/x/b c.npy")] in
+    let ds := torch_dataset (L := SymLib) a 3 m [mkSP 0 true] None [] in
+    NoDup (map fst m) /\
+    exists F, Forall2 (torch_stored (L := SymLib) (sym_read files) a 3 m [mkSP 0 true] None []) (td_utt_path ds) F /\
+              map fst F = ["u2"].
+  Proof.
+    cbv zeta. split; [repeat constructor; cbn; intuition discriminate|].
+    exists [("u2", mkSF (FCast (FColumn (SPre 0 (SChan 1 0) (RSeed 4)))) 50 : Feat SymLib)]. split.
+    - vm_compute td_utt_path. constructor; [|constructor].
+      split; [cbn; reflexivity|].
+      exists (A2 [mkSS (SChan 1 0) 50; mkSS (SChan 1 1) 50] 50), (mkSS (SChan 1 0) 50), 1%nat.
+      repeat split.
+    - reflexivity.
+  Qed.
+
+  Example stft_plan_example :
+    np_stft_plan 200 80 false true 1000 = Some (13, 60, 100) /\ np_stft_plan 200 80 true false 100 = None.
+  Proof. split; reflexivity. Qed.
+End Examples.
